@@ -231,7 +231,13 @@ def gen_config(rng, fam, out, i):
         s = rng.randrange(ns)
         d = streams[s]
         r = rng.random()
-        if r < 0.35:
+        if r < 0.12:
+            # the very first frame call fails while the client thread is held back inside acquire_start (the workers wind down
+            # and exit before the starter runs again)
+            # (exclusion window: from the creation of the last worker of the first stream on, the client thread does not run)
+            d["camfail"] = 0
+            lines.append("window thread_create %d 0 %d x" % (3 * s + 2, rng.choice([100, 400, 1500])))
+        elif r < 0.35:
             d["camfail"] = rng.randint(0, d["frames"])        # get_frame fails
         elif r < 0.5:
             d["shapefail"] = rng.randint(0, d["frames"] - 1)  # get_shape fails (the source asks before every frame)
